@@ -61,6 +61,15 @@ def main(tier, replay, t0):
                         m = members.get(f["name"])
                         if m is None or (m["ty"][0] == "a" and m["ty"][2] is None):
                             continue
+                        if m["ty"][0] in ("s", "at") and (f.get("ty") or "").replace(" ", "") != \
+                                m["ty"][1]:
+                            # (read from the item inventory: holds even where the module is
+                            # rejected by rustc for another reason)
+                            viol.append(Violation("field-type", "%s:%s" % (mv, W.wgsl(m["ty"])),
+                                                  "%s.%s: WGSL %s should be the Rust scalar %s, "
+                                                  "the field is declared as %s" % (
+                                                      s, f["name"], W.wgsl(m["ty"]), m["ty"][1],
+                                                      f.get("ty")), dict(base, struct=sd.wgsl())))
                         if any("runtime" in a for a in f["attrs"]) or \
                                 (f.get("ty") or "").replace(" ", "").startswith("Vec<"):
                             viol.append(Violation("fixed-member-became-runtime-sized", mv,
